@@ -338,9 +338,24 @@ def replay_once(binary, case, env, isolate=False, timeout=900, extra_args=()):
         shutil.rmtree(d, ignore_errors=True)
 
 
+RACY_ATTEMPTS = 0  # set per property (props "racy_replays"): see confirm()
+
+
 def confirm(binary, case, env, extra_args=()):
-    """replay three times in fresh processes; a violation only if it fails every time"""
+    """replay three times in fresh processes; a violation only if it fails every time.
+    Properties about concurrency (racy_replays=N) cannot promise that: the schedule is not part of the case. There a
+    case is replayed up to N times and counts as failing when at least two attempts fail (the unchanged tree never
+    fails one)."""
     outs = []
+    if RACY_ATTEMPTS:
+        fails = []
+        for _ in range(RACY_ATTEMPTS):
+            rc, out = replay_once(binary, case, env, extra_args=extra_args)
+            if rc != 0:
+                fails.append((rc, out))
+                if len(fails) >= 2:
+                    return True, fails
+        return False, fails or [(0, "")]
     for _ in range(3):
         rc, out = replay_once(binary, case, env, extra_args=extra_args)
         outs.append((rc, out))
@@ -470,7 +485,9 @@ def check_floors(p, tot):
 
 
 def run_check(pid, tier, seed):
+    global RACY_ATTEMPTS
     p = props.PROPS[pid]
+    RACY_ATTEMPTS = p.get("racy_replays", 0)
     t0 = time.time()
     rundir = os.path.join(BUILD, "run", "%s-%s-%d" % (pid, tier, os.getpid()))
     shutil.rmtree(rundir, ignore_errors=True)
@@ -509,7 +526,10 @@ def run_check(pid, tier, seed):
             e["RC_PARAMS"] = "seed=%d max_success=%d max_size=%d max_discard_ratio=100" % (
                 seed * 1000 + k + 1, max(1, cfg["cases"] // nsh), cfg.get("max_size", 100))
             od = os.path.join(sdir, "shard%02d" % k)
-            shards.append(Shard(k, [binary, "--out", od, "--known", KNOWN] + extra_args, e, od))
+            # "isolate_shards": the first n shards run every case in a forked child of an engine process that never
+            # executes a case itself, so every case meets the library's process-wide state untouched
+            iso = ["--isolate"] if k < p.get("isolate_shards", 0) else []
+            shards.append(Shard(k, [binary, "--out", od, "--known", KNOWN] + iso + extra_args, e, od))
         # extra modes (exhaustive drivers etc.)
         mode_binary = binary
         if cfg.get("modes") and p.get("modes_variant") and p["modes_variant"] != p.get("variant", "asan"):
@@ -768,7 +788,9 @@ def run_check(pid, tier, seed):
 
 
 def run_replay(pid, case):
+    global RACY_ATTEMPTS
     p = props.PROPS[pid]
+    RACY_ATTEMPTS = p.get("racy_replays", 0)
     rundir = os.path.join(BUILD, "run", "%s-replay-%d" % (pid, os.getpid()))
     os.makedirs(rundir, exist_ok=True)
     try:
@@ -790,8 +812,14 @@ def run_replay(pid, case):
         binary = build_harness(p, rundir)
         if p.get("econftool"):
             env["VF_ECONFTOOL"] = build_econftool(rundir)
-        rc, out = replay_once(binary, os.path.abspath(case), env, extra_args=p.get("args", []))
-        print(out)
+        if RACY_ATTEMPTS:
+            bad, outs = confirm(binary, os.path.abspath(case), env, p.get("args", []))
+            print(outs[0][1])
+            print("(%d replays, the schedule is not part of the case)" % RACY_ATTEMPTS if not bad else "(failed in two replays)")
+            rc = 10 if bad else 0
+        else:
+            rc, out = replay_once(binary, os.path.abspath(case), env, extra_args=p.get("args", []))
+            print(out)
         if rc != 0:
             print("VIOLATION property=%s replay=%s" % (pid, case))
             return 1
